@@ -526,7 +526,16 @@ pub fn c08_in(a: &Analysis, sc: Option<&Scenario>) -> Vec<Violation> {
 fn expected_items(a: &Analysis, multi_ok: bool) -> BTreeMap<usize, Vec<(usize, MessageDigest, bool)>> {
     let mut exp: BTreeMap<usize, Vec<(usize, MessageDigest, bool)>> = BTreeMap::new();
     let mut unreleased: BTreeSet<u16> = BTreeSet::new();
+    let mut conn_seen = 0usize;
     for i in &a.inbound {
+        if i.p.conn != conn_seen {
+            conn_seen = i.p.conn;
+            // a session that expired takes its record of unreleased identifiers with it: on the
+            // new session the same identifier belongs to a new message
+            if session_carried(a, conn_seen) == Some(false) {
+                unreleased.clear();
+            }
+        }
         // only what the client actually consumed counts (a connection may have been cut)
         if i.avail_seq.is_none() || a.conns[i.p.conn].consumed < i.p.end {
             continue;
@@ -606,7 +615,12 @@ fn first_content_diff(got: &MessageDigest, want: &MessageDigest) -> Option<&'sta
 pub fn streams_check(a: &Analysis, prop: &'static str) -> Vec<Violation> {
     let mut out = Vec::new();
     let exp = expected_items(a, true);
-    let complete = a.ctx_gone.is_none() && !a.run_returned() && a.fully_consumed();
+    // the connection being served at the end decides whether everything had its chance to
+    // arrive (earlier connections of the same Context were lost; what they left unconsumed is
+    // not expected in the first place)
+    let complete = a.ctx_gone.is_none()
+        && a.conns.last().map(|c| c.run_started.is_some() && c.run_returned.is_none() && c.consumed == c.inbound_len && !c.write_blocked_at_end).unwrap_or(false)
+        && (a.conns.len() > 1 || a.fully_consumed());
     for (sub, sv) in &a.streams {
         if sv.opened.is_none() {
             continue;
@@ -716,28 +730,48 @@ fn is_completion(p: &Packet) -> bool {
     }
 }
 
+/// Time since the recorded disconnection as `run()` on connection `c` sees it: the `elapsed` of
+/// the reconnect plus whatever the simulated clock advanced before `run()` started.
+pub fn effective_elapsed(a: &Analysis, c: usize) -> Option<u64> {
+    let at = a.events.iter().position(|e| matches!(e, Ev::Resumed { conn, .. } if *conn == c))?;
+    let Ev::Resumed { elapsed, .. } = &a.events[at] else { return None };
+    let mut total = *elapsed;
+    for e in &a.events[at + 1..] {
+        match e {
+            Ev::ClockAdvanced { secs } => total = total.saturating_add(*secs),
+            Ev::RunStarted { conn } if *conn == c => break,
+            _ => {}
+        }
+    }
+    Some(total)
+}
+
+/// Some(true): connection c resumed an unexpired session; Some(false): first connection, or the
+/// session had expired (nothing is carried over; an old exchange continuing belongs to a session
+/// the server no longer has); None: too close to the expiry instant to say.
+pub fn session_carried(a: &Analysis, c: usize) -> Option<bool> {
+    if c == 0 {
+        return Some(false);
+    }
+    match effective_elapsed(a, c) {
+        None => Some(false),
+        Some(elapsed) => {
+            let e = session_expiry(a, c - 1);
+            // only the instant of expiry itself is unspecified
+            if e != 0 && e != u32::MAX as u64 && elapsed == e {
+                None
+            } else {
+                Some(!(e == 0 || (e != u32::MAX as u64 && elapsed > e)))
+            }
+        }
+    }
+}
+
 /// Packets that occupy a Receive Maximum slot on connection `c`, in wire order; the flag says
 /// "carried over" (re-sent PUBLISH, or PUBREL of an exchange begun on an earlier connection).
 fn slot_takers<'a>(a: &'a Analysis, c: usize) -> Vec<(&'a WirePkt, bool)> {
     let mut out = Vec::new();
-    // Some(true): connection c resumed an unexpired session; Some(false): first connection or the
-    // session had expired (nothing is carried over, an old exchange continuing with its PUBREL
-    // belongs to a session the server no longer has); None: too close to the expiry instant
-    let carried_session = if c == 0 {
-        Some(false)
-    } else {
-        match a.events.iter().find_map(|e| if let Ev::Resumed { conn, elapsed } = e { if *conn == c { Some(*elapsed) } else { None } } else { None }) {
-            None => Some(false),
-            Some(elapsed) => {
-                let e = session_expiry(a, c - 1);
-                if e != 0 && e != u32::MAX as u64 && (elapsed as i64 - e as i64).abs() <= 60 {
-                    None
-                } else {
-                    Some(!(e == 0 || (e != u32::MAX as u64 && elapsed > e)))
-                }
-            }
-        }
-    };
+    let carried_session = session_carried(a, c);
     if carried_session.is_none() {
         return out;
     }
@@ -1732,6 +1766,7 @@ pub fn c17(a: &Analysis, sc: &Scenario) -> Vec<Violation> {
     // what is re-sent must be well-formed like everything else the client writes
     out.extend(wire_wellformed(a, "C17"));
     for (c, elapsed) in resumes {
+        let elapsed = effective_elapsed(a, c).unwrap_or(elapsed);
         let prev = c - 1;
         let old = &a.conns[prev];
         let new = &a.conns[c];
@@ -1742,9 +1777,9 @@ pub fn c17(a: &Analysis, sc: &Scenario) -> Vec<Violation> {
         let e = session_expiry(a, prev);
         // the clock may also have been advanced between the end of run() and the reconnect
         let expired = e == 0 || (e != u32::MAX as u64 && elapsed > e);
-        let near = e != 0 && e != u32::MAX as u64 && (elapsed as i64 - e as i64).abs() <= 60;
+        let near = e != 0 && e != u32::MAX as u64 && elapsed == e;
         if near {
-            continue; // equality region (plus possible clock advances): not specified
+            continue; // the instant of expiry itself: not specified
         }
         // what the previous connection left unfinished, in original wire order
         let strict = old.read_end_seen.is_some() && old.write_fault_seen.is_none();
